@@ -21,7 +21,9 @@ import time
 import vlib
 
 I64_MIN, I64_MAX = -2**63, 2**63 - 1
-CONSTRUCTS = ["int literal", "bool literal", "variable", "paren", "unary -", "not", "+ - * // %", "== != < <= > >=",
+CONSTRUCTS = ["several functions per program (int params, int or None result)", "calls f(..) as assignment RHS / println argument / "
+              "statement / return value, with positional, keyword (in and out of declaration order) and mixed call-free arguments",
+              "return / return e (also early, in branches)", "int literal", "bool literal", "variable", "paren", "unary -", "not", "+ - * // %", "== != < <= > >=",
               "and or", "x = e (new / reassign, any depth)", "let", "mut", "typed binding", "compound += -= *= //= %=",
               "if/elif/else", "while", "for-in-range(1..3 args)", "println(int|bool)", "pass", "break", "continue",
               "def with int params"]
@@ -185,12 +187,45 @@ def coq_expr(e):
     return "(EBin %s %s %s)" % (COQ_BIN[e[1]], coq_expr(e[2]), coq_expr(e[3]))
 
 
-def src_block(b, ind):
+def src_call(c, base):
+    args = [src_expr(a) for a in c[2]] + ["v%d=%s" % (p, src_expr(a)) for p, a in c[3]]
+    return "f%d(%s)" % (base + c[1], ", ".join(args))
+
+
+def src_c(c, base):
+    return src_call(c, base) if c[0] == "call" else src_expr(c)
+
+
+def sexp_c(c, base):
+    if c[0] != "call":
+        return sexp_expr(c)
+    args = [sexp_expr(a) for a in c[2]] + ["(named v%d %s)" % (p, sexp_expr(a)) for p, a in c[3]]
+    return "(c (v f%d)%s)" % (base + c[1], "".join(" " + a for a in args))
+
+
+def coq_c(c, base):
+    if c[0] != "call":
+        return "(CPure %s)" % coq_expr(c)
+    return "(CCall %d [%s] [%s])" % (base + c[1], "; ".join(coq_expr(a) for a in c[2]),
+                                     "; ".join("(%d, %s)" % (p, coq_expr(a)) for p, a in c[3]))
+
+
+def src_block(b, ind, base=0):
     out = []
     pad = "    " * ind
     for s in b:
         k = s[0]
-        if k == "assign":
+        if k == "cassign":
+            _, kind, x, ann, c = s
+            pre = {"inferred": "", "let": "let ", "mut": "mut "}[kind]
+            out.append("%s%sv%d%s = %s" % (pad, pre, x, (": " + ann) if ann else "", src_call(c, base)))
+        elif k == "cprint":
+            out.append("%sprintln(%s)" % (pad, src_call(s[1], base)))
+        elif k == "cexpr":
+            out.append(pad + src_call(s[1], base))
+        elif k == "ret":
+            out.append(pad + ("return" if s[1] is None else "return " + src_c(s[1], base)))
+        elif k == "assign":
             _, kind, x, ann, e = s
             pre = {"inferred": "", "let": "let ", "mut": "mut "}[kind]
             out.append("%s%sv%d%s = %s" % (pad, pre, x, (": " + ann) if ann else "", src_expr(e)))
@@ -198,19 +233,19 @@ def src_block(b, ind):
             out.append("%sv%d %s= %s" % (pad, s[2], s[1], src_expr(s[3])))
         elif k == "if":
             out.append("%sif %s:" % (pad, src_expr(s[1])))
-            out += src_block(s[2], ind + 1)
+            out += src_block(s[2], ind + 1, base)
             for c, b2 in s[3]:
                 out.append("%selif %s:" % (pad, src_expr(c)))
-                out += src_block(b2, ind + 1)
+                out += src_block(b2, ind + 1, base)
             if s[4] is not None:
                 out.append("%selse:" % pad)
-                out += src_block(s[4], ind + 1)
+                out += src_block(s[4], ind + 1, base)
         elif k == "while":
             out.append("%swhile %s:" % (pad, src_expr(s[1])))
-            out += src_block(s[2], ind + 1)
+            out += src_block(s[2], ind + 1, base)
         elif k == "for":
             out.append("%sfor v%d in range(%s):" % (pad, s[1], ", ".join(src_expr(a) for a in s[2])))
-            out += src_block(s[3], ind + 1)
+            out += src_block(s[3], ind + 1, base)
         elif k == "print":
             out.append("%sprintln(%s)" % (pad, src_expr(s[1])))
         else:
@@ -218,77 +253,111 @@ def src_block(b, ind):
     return out
 
 
-def sexp_block(b):
-    return "(" + " ".join(sexp_stmt(s) for s in b) + ")"
+def sexp_block(b, base=0):
+    return "(" + " ".join(sexp_stmt(s, base) for s in b) + ")"
 
 
-def sexp_stmt(s):
+def sexp_stmt(s, base=0):
     k = s[0]
+    if k == "cassign":
+        return "(= %s v%d %s %s)" % (s[1], s[2], s[3] or "_", sexp_c(s[4], base))
+    if k == "cprint":
+        return "(e (c (v println) %s))" % sexp_c(s[1], base)
+    if k == "cexpr":
+        return "(e %s)" % sexp_c(s[1], base)
+    if k == "ret":
+        return "(ret)" if s[1] is None else "(ret %s)" % sexp_c(s[1], base)
     if k == "assign":
         return "(= %s v%d %s %s)" % (s[1], s[2], s[3] or "_", sexp_expr(s[4]))
     if k == "compound":
         return "(op= %s v%d %s)" % (s[1], s[2], sexp_expr(s[3]))
     if k == "if":
-        elifs = " ".join("(elif %s %s)" % (sexp_expr(c), sexp_block(b)) for c, b in s[3])
-        el = "(else %s)" % sexp_block(s[4]) if s[4] is not None else "_"
-        return "(if %s %s (%s) %s)" % (sexp_expr(s[1]), sexp_block(s[2]), elifs, el)
+        elifs = " ".join("(elif %s %s)" % (sexp_expr(c), sexp_block(b, base)) for c, b in s[3])
+        el = "(else %s)" % sexp_block(s[4], base) if s[4] is not None else "_"
+        return "(if %s %s (%s) %s)" % (sexp_expr(s[1]), sexp_block(s[2], base), elifs, el)
     if k == "while":
-        return "(while %s %s)" % (sexp_expr(s[1]), sexp_block(s[2]))
+        return "(while %s %s)" % (sexp_expr(s[1]), sexp_block(s[2], base))
     if k == "for":
-        return "(for v%d (c (v range) %s) %s)" % (s[1], " ".join(sexp_expr(a) for a in s[2]), sexp_block(s[3]))
+        return "(for v%d (c (v range) %s) %s)" % (s[1], " ".join(sexp_expr(a) for a in s[2]), sexp_block(s[3], base))
     if k == "print":
         return "(e (c (v println) %s))" % sexp_expr(s[1])
     return k
 
 
-def coq_block(b):
-    return "(blk [" + "; ".join(coq_stmt(s) for s in b) + "])"
+def coq_block(b, base=0):
+    return "(blk [" + "; ".join(coq_stmt(s, base) for s in b) + "])"
 
 
-def coq_stmt(s):
+def coq_stmt(s, base=0):
     k = s[0]
-    if k == "assign":
+    if k in ("assign", "cassign"):
         ann = {None: "None", "int": "(Some TyInt)", "bool": "(Some TyBool)"}[s[3]]
-        return "SAssign %s %d %s %s" % (COQ_KIND[s[1]], s[2], ann, coq_expr(s[4]))
+        return "SAssign %s %d %s %s" % (COQ_KIND[s[1]], s[2], ann, coq_c(s[4], base))
+    if k == "cprint":
+        return "SPrint %s" % coq_c(s[1], base)
+    if k == "cexpr":
+        return "SExpr %s" % coq_c(s[1], base)
+    if k == "ret":
+        return "SReturn None" if s[1] is None else "SReturn (Some %s)" % coq_c(s[1], base)
     if k == "compound":
         return "SCompound %s %d %s" % (COQ_COP[s[1]], s[2], coq_expr(s[3]))
     if k == "if":
-        el = "ENone" if s[4] is None else "(EElse %s)" % coq_block(s[4])
+        el = "ENone" if s[4] is None else "(EElse %s)" % coq_block(s[4], base)
         for c, b in reversed(s[3]):
-            el = "(EElif %s %s %s)" % (coq_expr(c), coq_block(b), el)
-        return "SIf %s %s %s" % (coq_expr(s[1]), coq_block(s[2]), el)
+            el = "(EElif %s %s %s)" % (coq_expr(c), coq_block(b, base), el)
+        return "SIf %s %s %s" % (coq_expr(s[1]), coq_block(s[2], base), el)
     if k == "while":
-        return "SWhile %s %s" % (coq_expr(s[1]), coq_block(s[2]))
+        return "SWhile %s %s" % (coq_expr(s[1]), coq_block(s[2], base))
     if k == "for":
         a = s[2]
         r = ["(R1 %s)", "(R2 %s %s)", "(R3 %s %s %s)"][len(a) - 1] % tuple(coq_expr(x) for x in a)
-        return "SFor %d %s %s" % (s[1], r, coq_block(s[3]))
+        return "SFor %d %s %s" % (s[1], r, coq_block(s[3], base))
     if k == "print":
-        return "SPrint %s" % coq_expr(s[1])
+        return "SPrint (CPure %s)" % coq_expr(s[1])
     return {"pass": "SPass", "break": "SBreak", "continue": "SContinue"}[k]
 
 
 class Case:
-    """one generated function + the arguments it is called with"""
+    """one generated program: an entry function (local id 0) + helper functions (local ids 1..) it may call, and the
+    arguments the entry function is called with.  In generated source function <k> of the case placed at `name` = "t<i>"
+    is spelled f<10*i+k>."""
 
-    def __init__(self, params, args, body, origin="gen"):
+    def __init__(self, params, args, body, origin="gen", helpers=None):
         self.params, self.args, self.body, self.origin = params, args, body, origin
+        self.helpers = helpers or []          # [(local id, params, returns_int, body)]
+
+    @staticmethod
+    def base(name):
+        return 10 * int(name[1:])
+
+    def functions(self):
+        return [(k, ps, ret, b) for k, ps, ret, b in self.helpers] + [(0, self.params, False, self.body)]
 
     def source(self, name):
-        ps = ", ".join("v%d: int" % p for p in self.params)
-        return "def %s(%s) -> None:\n%s\n" % (name, ps, "\n".join(src_block(self.body, 1)))
+        base, out = self.base(name), []
+        for k, ps, ret, b in self.functions():
+            sig = ", ".join("v%d: int" % p for p in ps)
+            out.append("def f%d(%s) -> %s:\n%s\n" % (base + k, sig, "int" if ret else "None", "\n".join(src_block(b, 1, base))))
+        return "\n".join(out)
 
     def call(self, name):
-        return "%s(%s)" % (name, ", ".join(str(a) for a in self.args))
+        return "f%d(%s)" % (self.base(name), ", ".join(str(a) for a in self.args))
 
-    def sexp(self):
-        return "(fn (%s) None %s)" % (" ".join("v%d:int" % p for p in self.params), sexp_block(self.body))
+    def sexps(self, name="t0"):
+        base = self.base(name)
+        return {"f%d" % (base + k): "(fn (%s) %s %s)" % (" ".join("v%d:int" % p for p in ps), "int" if ret else "None", sexp_block(b, base))
+                for k, ps, ret, b in self.functions()}
+
+    def fn_names(self, name="t0"):
+        return ["f%d" % (self.base(name) + k) for k, _, _, _ in self.functions()]
 
     def coq(self):
-        return "{| params := %s; args := %s; body := %s |}" % (vlib.zlist(self.params), vlib.zlist(self.args), coq_block(self.body))
+        fns = "; ".join("{| fname := %d; fparams := %s; fret := %s; fbody := %s |}" % (k, vlib.zlist(ps), "true" if ret else "false", coq_block(b))
+                        for k, ps, ret, b in self.functions())
+        return "{| cprog := [%s]; centry := 0; args := %s |}" % (fns, vlib.zlist(self.args))
 
     def key(self):
-        return self.source("t") + self.call("t")
+        return self.source("t0") + self.call("t0")
 
 
 # ------------------------------------------------------------------------------------------------ generator
@@ -304,6 +373,7 @@ class Gen:
         self.anchor_p = anchor_p
         self.paren_extra = paren_extra
         self.safe = False
+        self.callable = []
 
     # scopes: list of dicts name -> {"ty","mut","anch"}; shadows: list of sets (checker-only shadow bindings)
     def visible(self, k):
@@ -444,6 +514,8 @@ class Gen:
 
     def stmt(self, depth, in_loop):
         rng = self.rng
+        if self.callable and rng.random() < 0.2:
+            return self.call_stmt()
         r = rng.random()
         if r < 0.22:      # new binding
             kind = rng.choice(["inferred", "let", "mut", "mut"])
@@ -555,16 +627,82 @@ class Gen:
         ent["mut"] = old
         return b
 
-    def case(self):
+    # ---- calls
+    def call_expr(self):
         rng = self.rng
-        self.safe = rng.random() < 0.6
-        np_ = rng.choice([0, 1, 2, 2, 2, 3])
-        params = list(range(np_))
+        k, ps, ret, _ = rng.choice(self.callable)
+        vals = {}
+        for p in ps:
+            if rng.random() < 0.6:
+                vs = self.vars_of("int")
+                vals[p] = ("var", rng.choice(vs)) if vs and rng.random() < 0.6 else ("int", rng.randint(0, 12))
+            else:
+                vals[p] = self.fin(self.int_expr(1))
+        mode = rng.choice(["pos", "pos", "kw", "kwrev", "mixed"]) if ps else "pos"
+        if mode == "pos":
+            return ("call", k, [vals[p] for p in ps], []), ret
+        if mode == "kw":
+            return ("call", k, [], [(p, vals[p]) for p in ps]), ret
+        if mode == "kwrev":
+            order = list(reversed(ps))
+            return ("call", k, [], [(p, vals[p]) for p in order]), ret
+        rest = list(ps[1:])
+        rng.shuffle(rest)
+        return ("call", k, [vals[ps[0]]], [(p, vals[p]) for p in rest]), ret
+
+    def call_stmt(self):
+        rng = self.rng
+        c, ret = self.call_expr()
+        if not ret:
+            return [("cexpr", c)]
+        r = rng.random()
+        if r < 0.5:
+            kind = rng.choice(["inferred", "let", "mut"])
+            x = self.fresh(allow_shadow=(kind != "inferred"))
+            if x is not None:
+                self.scopes[-1][x] = {"ty": "int", "mut": kind == "mut", "anch": True}
+                return [("cassign", kind, x, "int" if rng.random() < 0.1 else None, c)]
+        if r < 0.9:
+            return [("cprint", c)]
+        return [("cexpr", c)]
+
+    def gen_function(self, params, ret, n):
+        rng = self.rng
         self.scopes = [{p: {"ty": "int", "mut": False, "anch": True} for p in params}]
         self.shadows = [set()]
         body = []
-        for _ in range(rng.randint(2, 5)):
+        for _ in range(n):
             body += self.stmt(2, False)
+        if ret is None:
+            return body
+        if rng.random() < 0.4:
+            early = ("ret", self.fin(self.top_int(1))) if ret else ("ret", None)
+            body.append(("if", self.fin(self.bool_expr(1)), [early], [], None))
+            body += self.stmt(1, False)
+        if ret:
+            if rng.random() < 0.25:
+                body.append(("if", self.fin(self.bool_expr(1)), [("ret", self.fin(self.top_int(1)))], [], [("ret", self.fin(self.top_int(1)))]))
+            else:
+                body.append(("ret", self.fin(self.top_int(2))))
+        return body
+
+    def case(self):
+        rng = self.rng
+        self.safe = rng.random() < 0.6
+        helpers = []
+        self.callable = []
+        for k in range(1, 1 + rng.choice([0, 0, 1, 2, 2])):
+            ps = list(range(rng.choice([0, 1, 2, 2, 3])))
+            ret = rng.random() < 0.7
+            b = self.gen_function(ps, ret, rng.randint(1, 3))
+            helpers.append((k, ps, ret, b))
+            self.callable.append((k, ps, ret, b))
+        np_ = rng.choice([0, 1, 2, 2, 2, 3])
+        params = list(range(np_))
+        body = self.gen_function(params, None, rng.randint(2, 5))
+        if rng.random() < 0.15:
+            body.append(("if", self.fin(self.bool_expr(1)), [("ret", None)], [], None))
+            body += self.stmt(1, False)
         args = []
         for _ in params:
             r = rng.random()
@@ -574,7 +712,7 @@ class Gen:
                 args.append(rng.randint(-1000, 1000))
             else:
                 args.append(rng.choice([I64_MAX, I64_MIN + 1, 2**31, -2**31, 2**62, 0]))
-        return Case(params, args, body)
+        return Case(params, args, body, helpers=helpers)
 
 
 def expr_case(e, params=(), args=()):
@@ -604,6 +742,12 @@ def corpus():
         Case([0], [0], [("for", 1, [i(0), i(3), v(0)], [("print", v(1))])], origin="corpus"),   # ValueError step 0
         Case([0], [-7], [("print", b("//", v(0), i(2))), ("print", b("%", v(0), i(3))), ("print", b("%", i(7), ("un", "neg", i(3))))],
              origin="corpus"),
+        # calls: keyword arguments out of declaration order, mixed, early return, a None function
+        Case([0], [3], [("cprint", ("call", 1, [], [(1, v(0)), (0, i(2))])), ("cassign", "let", 5, None, ("call", 1, [i(7)], [(1, i(4))])),
+                        ("print", v(5)), ("cexpr", ("call", 2, [v(0)], [])), ("cprint", ("call", 1, [i(1), i(2)], []))],
+             origin="corpus",
+             helpers=[(1, [0, 1], True, [("if", b(">", v(1), i(3)), [("ret", b("-", v(1), v(0)))], [], None), ("ret", b("-", b("*", v(0), i(10)), v(1)))]),
+                      (2, [0], False, [("print", b("+", v(0), i(100))), ("if", b(">", v(0), i(0)), [("ret", None)], [], None), ("print", i(0))])]),
     ]
     return cs
 
@@ -615,7 +759,7 @@ PATHS = {("incan_stdlib", "::", "num", "::", "py_mod_i64"): 10, ("incan_stdlib",
          ("incan_stdlib", "::", "iter", "::", "range"): 15}
 SIMPLE = {"true": [3], "false": [4], "+": [20], "-": [21], "*": [22], "==": [23], "!=": [24], "<": [25], "<=": [26],
           ">": [27], ">=": [28], "&&": [29], "||": [30], "!": [31], "let": [40], "mut": [41], "if": [42], "else": [43],
-          "while": [44], "loop": [45], "for": [46], "in": [47], "break": [48], "continue": [49], ";": [60], ",": [61],
+          "while": [44], "loop": [45], "for": [46], "in": [47], "break": [48], "continue": [49], "return": [50], "fn": [51], ";": [60], ",": [61],
           "=": [62], "println": [64], '"{}"': [65], "as": [66], "i64": [67], "(": [70], ")": [71], "{": [72], "}": [73]}
 PUNCT2 = ["==", "!=", "<=", ">=", "&&", "||", "::", "->"]
 
@@ -653,6 +797,8 @@ def real_codes(tokens):
             out.append(63)
         elif re.fullmatch(r"v\d+", t):
             out += [2, int(t[1:])]
+        elif re.fullmatch(r"f\d+", t):
+            out += [5, int(t[1:])]
         elif re.fullmatch(r"\d+", t):
             out += [1, int(t)]
         elif t in SIMPLE:
@@ -660,6 +806,29 @@ def real_codes(tokens):
         else:
             out += [-1, t]
         i += 1
+    return out
+
+
+def file_codes(fns, names):
+    """codes of the emitted function items `fn f(p: i64, ..) [-> i64] { body }` in declaration order"""
+    out = []
+    for n in names:
+        f = fns.get(n)
+        if f is None:
+            out += [-1, "missing fn " + n]
+            continue
+        sig = []
+        for t in f["sig"]:
+            sig += split_punct(t)
+        close = len(sig) - 1 - sig[::-1].index(")") if ")" in sig else len(sig)
+        params = [t for t in sig[:close] if re.fullmatch(r"v\d+", t)]
+        out += [51, 5, int(n[1:]), 70]
+        for j, p in enumerate(params):
+            out += [2, int(p[1:]), 68, 67] + ([61] if j + 1 < len(params) else [])
+        out.append(71)
+        if "i64" in sig[close:]:
+            out += [69, 67]
+        out += [72] + real_codes(f["body"]) + [73]
     return out
 
 
@@ -680,7 +849,7 @@ def eval_model(cases, tag="c01"):
         src = (src_lines, src_stop)
         out.append({"src": ([tuple(x) for x in src[0]], src[1]),
                     "status": rust[0], "rust": ([tuple(x) for x in rust[1][0]], rust[1][1]), "typed": rust[2],
-                    "grouping": flags[0], "fallback": flags[1], "codes": list(codes)})
+                    "grouping": flags[0], "fallback": flags[1], "calls_wf": flags[2], "codes": list(codes)})
     return out
 
 
@@ -801,10 +970,16 @@ def run_binary(path, names, timeout=60):
 # ------------------------------------------------------------------------------------------------ the check
 
 def load_findings(chk, prop):
+    # TEMPORARY: entries proposed in build/kf-<prop>.json that the lead has not merged into known_findings.json yet are
+    # added to the merged ones (drop this block after merging)
+    p = os.path.join(vlib.VERIF, "build", "kf-%s.json" % prop)
+    if os.path.exists(p):
+        have = {f["id"] for f in chk.findings}
+        chk.findings = list(chk.findings) + [f for f in json.load(open(p)) if f["id"] not in have]
     return {f["id"]: f for f in chk.findings if f.get("status") == "known"}
 
 
-def describe(case, name="t"):
+def describe(case, name="t0"):
     return case.source(name) + "# call: " + case.call(name)
 
 
@@ -869,9 +1044,10 @@ def pipeline(chk, binary, cases, known, n_batches, batch_size, n_panic, n_fallba
         if r.get("parse") != "ok":
             corr_bad.append({"case": describe(c), "tie": "generator/parser", "real": r.get("parse")})
             continue
-        if r["ast"].get("t0") != c.sexp():
+        want = c.sexps()
+        if {k: r["ast"].get(k) for k in want} != want:
             corr_bad.append({"case": describe(c), "tie": "parser tree (the real parser reads the text differently from the generator's tree)",
-                             "real": r["ast"].get("t0"), "generator": c.sexp()})
+                             "real": {k: r["ast"].get(k) for k in want}, "generator": want})
             continue
         if r["check"]:
             rejected.append({"case": describe(c), "checker": r["check"][:2]})
@@ -886,11 +1062,11 @@ def pipeline(chk, binary, cases, known, n_batches, batch_size, n_panic, n_fallba
             if m["status"] == 1:
                 corr_bad.append({"case": describe(c), "tie": "lowering verdict", "real": "ok", "model": "lowering error"})
                 continue
-            rc = real_codes(r["fns"]["t0"]["body"])
+            rc = file_codes(r["fns"], c.fn_names())
             if rc != m["codes"]:
                 k = next((j for j in range(min(len(rc), len(m["codes"]))) if rc[j] != m["codes"][j]), min(len(rc), len(m["codes"])))
                 corr_bad.append({"case": describe(c), "tie": "emitted Rust tokens", "first_difference_at": k,
-                                 "real": " ".join(r["fns"]["t0"]["body"]), "real_codes": rc[max(0, k - 6):k + 6], "model_codes": m["codes"][max(0, k - 6):k + 6]})
+                                 "real": {k: " ".join(r["fns"].get(k, {}).get("body", [])) for k in c.fn_names()}, "real_codes": rc[max(0, k - 6):k + 6], "model_codes": m["codes"][max(0, k - 6):k + 6]})
                 # the difference is explained on the real binary: does THIS function still behave as its source says?
                 suspects.append(i)
                 continue
@@ -939,8 +1115,9 @@ def pipeline(chk, binary, cases, known, n_batches, batch_size, n_panic, n_fallba
                 bad_fns = lint_culprits(msg, os.path.join(d, "out_" + stem, "src", "main.rs"))
                 if bad_fns is None:
                     continue
-                keep = [(n, i) for n, i in layout[stem] if n not in bad_fns]
-                stats.setdefault("const_overflow_lint", []).extend(describe(cases[i], n) for n, i in layout[stem] if n in bad_fns)
+                bad_idx = {int(x[1:]) // 10 for x in bad_fns if re.fullmatch(r"f\d+", x)}
+                keep = [(n, i) for n, i in layout[stem] if int(n[1:]) not in bad_idx]
+                stats.setdefault("const_overflow_lint", []).extend(describe(cases[i], n) for n, i in layout[stem] if int(n[1:]) in bad_idx)
                 if keep:
                     layout[stem + "r"] = keep
                     retry.append((stem + "r", batch_source([(n, cases[i]) for n, i in keep])))
@@ -970,7 +1147,8 @@ def pipeline(chk, binary, cases, known, n_batches, batch_size, n_panic, n_fallba
     for i, (lines, stop) in sorted(observed.items()):
         c, m = cases[i], model[i]
         got = (list(lines), stop)
-        key = (STOPS.get(m["src"][1], "?"), "grouping" if m["grouping"] else "", "int-fallback" if m["fallback"] else "")
+        key = (STOPS.get(m["src"][1], "?"), "grouping" if m["grouping"] else "", "int-fallback" if m["fallback"] else "",
+               "calls" if cases[i].helpers else "", "" if m["calls_wf"] else "kwargs-reordered-nonatomic(outside theorem)")
         dist[str(key)] = dist.get(str(key), 0) + 1
         chk.count_case(c.key(), nontrivial=(len(lines) > 0))
         exp_src = (list(m["src"][0]), m["src"][1])
@@ -1079,7 +1257,7 @@ def replay_one(binary, program, coq_case, tag="c01r"):
     r = emit_real(binary, [program])[0]
     out["real_check"] = r.get("check")
     out["real_codegen"] = r.get("gen")
-    out["real_emitted_body"] = " ".join(r.get("fns", {}).get("t0", {}).get("body", []))
+    out["real_emitted"] = {k: " ".join(v.get("body", [])) for k, v in r.get("fns", {}).items()}
     d = scratch_dir(tag)
     stem = "%sp%d" % (tag, os.getpid() % 100000)
     try:
@@ -1096,7 +1274,7 @@ def replay_one(binary, program, coq_case, tag="c01r"):
         res = vlib.coq_eval(REQ, MODEL_TYPE, "run_case default_fuel", [coq_case], tag=tag)[0]
         out["documented_semantics"] = {"lines": res[0], "stop": STOPS.get(res[1])}
         out["rust_side_model"] = {"status": res[2][0], "lines": res[2][1][0], "stop": STOPS.get(res[2][1][1]), "well_typed": res[2][2]}
-        out["classes"] = {"grouping": res[3][0], "int-fallback": res[3][1]}
+        out["classes"] = {"grouping": res[3][0], "int-fallback": res[3][1], "calls_wf": res[3][2]}
     return out
 
 
